@@ -4,3 +4,8 @@ open Emboss.Deps
 #print axioms C15_order_identity_if_sorted
 #print axioms C15_order_perm
 #print axioms C15_order_complete
+#print axioms C15_terminates
+#print axioms C15_tarjan_sccs
+#print axioms C15_cycle_iff
+#print axioms C15_ok_iff_closed
+#print axioms C15_order_independent
